@@ -178,16 +178,16 @@ Section Accounting.
     - intros r' _. destruct (Nat.eqb_spec r' r) as [->|]; [rewrite !S_INR; lra|lra].
   Qed.
 
-  Lemma acc_iter gfuel u st st' n d pq : acc_inv st n d pq -> dssa_iter ArithR (2 * PI) gfuel s u st = Done st' ->
+  (* the invariant is preserved by any of the four kinds of step (Proofs/DelayProofs.v: dstep) taken from the current state,
+     whatever else the simulator at hand keeps in its state; used for the delay-capable AND the delay + volume loop *)
+  Lemma acc_step st st' n d pq k : acc_inv st n d pq -> ds_rows st' = ds_rows st ++ repeat (ds_x st) k ->
+    dstep ArithR s (ds_x st) (ds_p st) (ds_q st) (ds_time st') (ds_x st') (ds_q st') ->
     exists n' d' pq', acc_inv st' n' d' pq'.
   Proof.
-    intros Hinv H.
-    destruct (dssa_iter_rows gfuel u st st' H) as [k Hrows].
+    intros Hinv Hrows Hstep.
     assert (Hrows' : Forall lattice (ds_rows st')).
     { rewrite Hrows. apply Forall_app. split; [apply (ai_rows _ _ _ _ Hinv)|].
       apply Forall_forall. intros row Hin. apply repeat_spec in Hin. subst. eapply inv_lattice; eauto. }
-    destruct (dssa_iter_steps ArithR (2 * PI) s gfuel u st st' H) as [[_ ->]|(x1 & p1 & Hr & _ & Hstep)]; [exists n, d, pq; exact Hinv|].
-    rewrite no_rules in Hr. cbn [apply_rules fold_left] in Hr. inversion Hr; subst x1 p1; clear Hr.
     destruct Hinv as [Hwf Hnrx Hncols Hlen Hx Hpq Hcount _].
     assert (HlSd : length (ds_x st) = length Sdm) by congruence.
     inversion Hstep as [Ex Eq | r dl Hrr Hd Ex Eq | r dl q' Hrr Hd Hadd Ex Eq | Ex Eq]; clear Hstep.
@@ -249,6 +249,16 @@ Section Accounting.
           apply Hcount; auto.
       + exact Hrows'.
     - exists n, d, pq. constructor; rewrite <- ?Eq, <- ?Ex; auto.
+  Qed.
+
+  Lemma acc_iter gfuel u st st' n d pq : acc_inv st n d pq -> dssa_iter ArithR (2 * PI) gfuel s u st = Done st' ->
+    exists n' d' pq', acc_inv st' n' d' pq'.
+  Proof.
+    intros Hinv H.
+    destruct (dssa_iter_rows gfuel u st st' H) as [k Hrows].
+    destruct (dssa_iter_steps ArithR (2 * PI) s gfuel u st st' H) as [[_ ->]|(x1 & p1 & Hr & _ & Hstep)]; [exists n, d, pq; exact Hinv|].
+    rewrite no_rules in Hr. cbn [apply_rules fold_left] in Hr. inversion Hr; subst x1 p1; clear Hr.
+    eapply acc_step; eauto.
   Qed.
 
   Theorem acc_loop gfuel u fuel : forall st st' n d pq, acc_inv st n d pq ->
